@@ -15,9 +15,10 @@ THEOREMS = THEOREMS + ['Flowdyn.GenK.%s_eq' % k for k in ['swDt', 'eDt', 'convDt
 import core as _core
 AUDIT_IMPORTS = AUDIT_IMPORTS + ['Flowdyn.Props.C18b']
 THEOREMS = THEOREMS + _core.theorems_in(['C18b.lean'], 'Flowdyn.C18')
-PARTIAL = {'2D': "e2Dt uses |V| + c, the maximum over unit normals of the spectral radius of the normal flux Jacobian; proved: formula, positivity, bilinearity, the translated body (GenK2.e2Dt_eq); the maximisation over directions is not stated as a theorem",
-           'driver': "global-min / local-array use of the time step by the driver is in the driver model (C07) and checked here on the implementation"}
-LEVEL_NOTE = "formula, positivity, bilinearity proved; the Jacobian matrices are proved to be the Frechet derivatives of the model's own consistent flux in conservative variables, their eigenvalues are exactly u-c,(u),u+c (characteristic polynomial), hence spectral radius |u|+c = the denominator of the time step (C18b.sw_spectral, e_spectral, conv_spectral, burgers_spectral)"
+AUDIT_IMPORTS = AUDIT_IMPORTS + ['Flowdyn.Props.C18c']
+THEOREMS = THEOREMS + _core.theorems_in(['C18c.lean'], 'Flowdyn.C18c')
+PARTIAL = {'driver': "global-min / local-array use of the time step by the driver is in the driver model (C07) and checked here on the implementation"}
+LEVEL_NOTE = "formula, positivity, bilinearity proved; the Jacobian matrices are proved to be the Frechet derivatives of the model's own consistent flux in conservative variables, their eigenvalues are exactly u-c,(u),u+c (characteristic polynomial), hence spectral radius |u|+c = the denominator of the time step (C18b.sw_spectral, e_spectral, conv_spectral, burgers_spectral); 2D Euler (C18c): the normal flux on conservative variables is the model's consistent flux, its 4x4 Jacobian is the Frechet derivative for every normal, for a unit normal the spectrum is exactly {un-c, un, un+c} (eigenvectors, characteristic polynomial, Mathlib spectrum), the spectral radius |un|+c is maximised over unit normals by |V|+c (dir_max), and e2Dt = cfl*dx / that maximum (e2_spectral)"
 
 
 def layers(ctx):
@@ -199,18 +200,30 @@ def oracle(ctx, seeds=None):
                 impl.modeldisc.fvm(m, msh, impl.xnum.extrapol1(), numflux='hlle', bcL={'type': 'sym'}, bcR={'type': 'sym'})
             s = getattr(impl.integ, integ)(msh, disc)
             f = impl.field.fdata(m, msh, [np.array(x, dtype=float) for x in q])
-            bad = None
+            bad = None; badstate = None
             first = True
             for r_, cfl in enumerate(cfls):
                 for k in range(2):
                     exp = float(np.min(np.asarray(disc.calc_timestep(f, cfl), dtype=float) * np.ones(n)))
                     t0 = f.time
+                    if r_ == 1 and k == 0:
+                        # an unrelated call with the local-time-step directive on the same solver (result discarded): the directive
+                        # belongs to that call only, the next plain call advances every cell with the global minimum again
+                        s.solve(f.copy(), cfl, stop={'maxit': 1}, directives={'dtlocal': True})
+                        first = True
+                    ref = getattr(impl.integ, integ)(msh, disc).solve(f.copy(), cfl, stop={'maxit': 1})[-1]     # fresh solver, same state
                     f = (s.solve(f, cfl, stop={'maxit': 1}) if first else s.restart(f, cfl, stop={'maxit': 1}))[-1]
                     first = False
                     if abs((f.time - t0) - exp) > 1e-11 * exp:
                         bad = (r_, k, f.time - t0, exp, cfl); break
+                    if not all(np.allclose(a_, b_, rtol=1e-12, atol=1e-13 * (float(np.max(np.abs(b_))) + 1e-300), equal_nan=True) for a_, b_ in zip(f.data, ref.data)):
+                        badstate = (r_, k, cfl); break
+                if badstate:
+                    break
                 if bad:
                     break
+            if badstate:
+                res.fail(name + ':history-state', "round %d iteration %d (cfl %r): the state after one iteration on a solver with a history (other CFL numbers, an earlier call with the dtlocal directive) differs from the same iteration on a fresh solver" % badstate, rp)
             if bad:
                 res.fail(name + ':history-increment', "round %d iteration %d advanced time by %r, min_i CFL dx_i/lambda_i = %r (cfl %r)" % bad, rp)
         except Exception as e:
